@@ -419,7 +419,31 @@ func runDualInBubble(t *testing.T, sc *DualScenario, ch sim.Chooser) []sim.Ev {
 		stored = append(stored, map[string]any{"p": label[id], "net": map[byte]string{'w': "wan", 'l': "lan"}[label[id][0]], "offered": append([]string{}, ref.Classes...), "stored": st})
 	}
 	sort.Slice(stored, func(i, j int) bool { return stored[i].(map[string]any)["p"].(string) < stored[j].(map[string]any)["p"].(string) })
-	add("Peerstore", "learned", stored)
+	// the searched peer: what each half was told about it, what was known before, what is stored now
+	wanOff, lanOff := map[string]bool{}, map[string]bool{}
+	for i := range sc.Peers {
+		for _, ref := range sc.Peers[i].Closer {
+			if ref.Target {
+				for _, c := range ref.Classes {
+					if sc.Peers[i].Net == "wan" {
+						wanOff[c] = true
+					} else {
+						lanOff[c] = true
+					}
+				}
+			}
+		}
+	}
+	keysOf := func(m map[string]bool) []string {
+		out := []string{}
+		for c := range m {
+			out = append(out, c)
+		}
+		sort.Strings(out)
+		return out
+	}
+	add("Peerstore", "learned", stored, "twan", keysOf(wanOff), "tlan", keysOf(lanOff), "tknown", append([]string{}, sc.TargetKnown...),
+		"tstored", dualClassSet(h.Peerstore().Addrs(target)))
 	// drain what is still parked (background work), then close
 	closed := make(chan struct{})
 	go func() { _ = d.Close(); close(closed) }()
